@@ -156,8 +156,9 @@ impl<'a, 'b> Adv<'a, 'b> {
         }
         // votes for round r go to b2 (us): collect
         self.poll(2 * 30).await;
-        let qa = self.assemble_qc(&a_r.digest(), r);
-        let qb = self.assemble_qc(&b_r.digest(), r);
+        let hopeful = self.t.chance(1, 2);
+        let qa = if hopeful { self.assemble_qc_hopeful(&a_r.digest(), r) } else { self.assemble_qc(&a_r.digest(), r) };
+        let qb = if hopeful { self.assemble_qc_hopeful(&b_r.digest(), r) } else { self.assemble_qc(&b_r.digest(), r) };
         let a_r1 = qa.map(|q| self.w.block(b2, r + 1, q, None, e1.clone().into_iter().collect()));
         let b_r1 = qb.map(|q| self.w.block(b2, r + 1, q, None, e2.clone().into_iter().collect()));
         if let Some(x) = &a_r1 {
@@ -186,14 +187,16 @@ impl<'a, 'b> Adv<'a, 'b> {
         }
         let bc = self.w.leader(rr);
         if let Some(x) = &a_r1 {
-            if let Some(q) = self.assemble_qc(&x.digest(), r + 1) {
+            let q = if hopeful { self.assemble_qc_hopeful(&x.digest(), r + 1) } else { self.assemble_qc(&x.digest(), r + 1) };
+            if let Some(q) = q {
                 let c = self.w.block(bc, rr, q, None, Vec::new());
                 self.send_block(bc, &c, &s_a.clone()).await;
                 self.stat("selective-reveal");
             }
         }
         if let Some(x) = &b_r1 {
-            if let Some(q) = self.assemble_qc(&x.digest(), r + 1) {
+            let q = if hopeful { self.assemble_qc_hopeful(&x.digest(), r + 1) } else { self.assemble_qc(&x.digest(), r + 1) };
+            if let Some(q) = q {
                 let c = self.w.block(bc, rr, q, None, e1.into_iter().collect());
                 self.send_block(bc, &c, &s_b.clone()).await;
                 self.stat("selective-reveal");
@@ -229,23 +232,31 @@ impl<'a, 'b> Adv<'a, 'b> {
             Some(x) => x,
             None => return,
         };
-        // withhold until the honest nodes have timed out of r1 (their Timeout(r1) frames are in the pool)
+        // withhold until the first honest nodes have timed out of r1 (their Timeout(r1) frames are on
+        // the wire), then deliver at once to exactly those nodes - before a TC moves them on
         let mut waited = 0;
+        let victims: Vec<usize>;
         loop {
-            let timed_out = self.pool.timeouts.get(&r1).map_or(0, |m| m.keys().filter(|i| self.honest.contains(i)).count());
-            if timed_out * 2 > self.honest.len() || waited > 1_200 {
+            let timed_out: Vec<usize> = self.pool.timeouts.get(&r1).map_or(Vec::new(), |m| m.keys().copied().filter(|i| self.honest.contains(i)).collect());
+            if !timed_out.is_empty() || waited > 1_500 {
+                victims = if timed_out.is_empty() { self.subset() } else { timed_out };
                 break;
             }
-            self.poll(10).await;
-            waited += 10;
+            self.poll(1).await;
+            waited += 1;
         }
         self.stat("late-proposal");
         let blk = self.w.block(b, r1, qc, None, Vec::new());
-        let victims = if self.t.chance(1, 2) { self.honest.clone() } else { self.subset() };
         self.send_block(b, &blk, &victims).await;
+        // the others get it a little later
+        self.poll(3).await;
+        let rest: Vec<usize> = self.honest.iter().copied().filter(|h| !victims.contains(h)).collect();
+        if self.t.chance(1, 2) {
+            self.send_block(b, &blk, &rest).await;
+        }
         // votes for r1 go to leader(r1+1); the tap sees them
         self.poll(60).await;
-        if let Some(q) = self.assemble_qc(&blk.digest(), r1) {
+        if let Some(q) = self.assemble_qc_hopeful(&blk.digest(), r1) {
             let mut rr = r1 + 1;
             while !self.byz.contains(&self.w.leader(rr)) {
                 rr += 1;
@@ -400,6 +411,25 @@ impl<'a, 'b> Adv<'a, 'b> {
             return None;
         }
         Some(QC { hash: d.clone(), round, votes: signers.into_iter().map(|(i, s)| (self.w.pk(i), s)).collect() })
+    }
+
+    /// What an attacker probing for a weak threshold would try: a certificate from whatever votes
+    /// exist (honest votes seen plus all Byzantine votes) when the quorum is missed by little.
+    fn assemble_qc_hopeful(&mut self, d: &Digest, round: u64) -> Option<QC> {
+        if let Some(q) = self.assemble_qc(d, round) {
+            return Some(q);
+        }
+        let mut signers: BTreeMap<usize, Signature> = self.pool.votes.get(&(d.clone(), round)).cloned().unwrap_or_default();
+        for b in &self.byz {
+            signers.entry(*b).or_insert_with(|| self.w.vote_for(*b, d.clone(), round).signature);
+        }
+        let idx: Vec<usize> = signers.keys().copied().collect();
+        // at least one honest vote and not absurdly far from the quorum
+        if idx.iter().any(|i| self.honest.contains(i)) && self.w.stake_of(&idx) + 1 >= self.w.quorum() {
+            self.stat("hopeful-sub-quorum-certificate");
+            return Some(QC { hash: d.clone(), round, votes: signers.into_iter().map(|(i, s)| (self.w.pk(i), s)).collect() });
+        }
+        None
     }
 
     /// A TC for the round if the pool's timeouts plus fresh Byzantine ones (reporting `hq`) reach the quorum.
@@ -824,12 +854,16 @@ fn run(case: &Case, _ctx: &Ctx) -> Outcome {
             tap: tap.clone(),
         };
         // batches known to every honest node, so that equivocating variants with different payloads are voteable
+        // let the nodes bind their ports first
+        tokio::time::sleep(ms(5)).await;
         if !byz2.is_empty() {
             for k in 0..2u8 {
                 let bytes = bincode::serialize(&MempoolMessage::Batch(vec![vec![0xEE, k, 1, 2, 3, 4, 5, 6, 7, 8]])).unwrap();
                 adv.evil.push(sha512_32(&bytes));
                 for h in &honest2 {
-                    let _ = adv.conns.mempool(byz2[0], *h, bytes.clone()).await;
+                    if adv.conns.mempool(byz2[0], *h, bytes.clone()).await {
+                        adv.stat("evil-batch-delivered");
+                    }
                 }
             }
         }
@@ -947,7 +981,7 @@ fn run(case: &Case, _ctx: &Ctx) -> Outcome {
     });
     let committing = commits.values().filter(|v| v.len() >= 2).count();
     let attack = stats.contains_key("equivocation") || stats.contains_key("selective-reveal") || stats.contains_key("stale-timeout") || stats.contains_key("late-proposal");
-    for k in ["template-double-chain", "template-late-after-timeout", "template-fabricated-chain", "two-certified-blocks-in-one-round", "equivocation", "double-vote", "selective-reveal", "bogus-certificate", "stale-timeout", "late-proposal", "partition", "wrong-leader-proposal", "replay", "cross-delivery"] {
+    for k in ["hopeful-sub-quorum-certificate", "template-double-chain", "template-late-after-timeout", "template-fabricated-chain", "two-certified-blocks-in-one-round", "equivocation", "double-vote", "selective-reveal", "bogus-certificate", "stale-timeout", "late-proposal", "partition", "wrong-leader-proposal", "replay", "cross-delivery"] {
         if stats.contains_key(k) {
             out.class(k);
         }
